@@ -1522,7 +1522,7 @@ def gen_sysnotif(seed, mode="loop"):
     for i in range(1, nm + 1):
         for t in systs:
             if r.random() < 0.45:
-                sc.main.append(("sub", i, t, r.choice([0, 0, 0, SRC_HIGH, SRC_NORM]), sc.ud()))
+                sc.main.append(("sub", i, t, r.choice([0, 0, 0, SRC_HIGH, SRC_NORM, SRC_LOW]), sc.ud()))
         if r.random() < 0.15:
             sc.main.append(("sub", i, sc.topic(".*"), 0, sc.ud()))
     if r.random() < 0.3:
